@@ -1,9 +1,209 @@
-(* C17 — property theorems only. *)
-From Coq Require Import List Arith ZArith Bool.
-From Verif Require Import lib.Wire c17.Model c17.Spec c17.Proofs gen.Consts_c17.
-Import ListNotations.
+(* C17 — property theorems only.  Each is closed by [exact] of a lemma from
+   Proofs*.v and followed by Print Assumptions.
 
+   Vocabulary: [reach cfg ops] is the manager's state after the operations
+   [ops] (observation reports, IsClosed flips, disconnect notifications) from
+   the empty state; [cobs] is connObservedTWAddrs, [ext] is externalAddrs;
+   [cred_of cfg (cobs st)] is connObservedTWAddrs with each connection's local
+   thin waist written next to it; [nobs cfg cred l x] is the number of distinct
+   observer groups (IPv4 address / IPv6 /56) of the connections vouching for
+   observed thin waist x on local thin waist l. *)
+From Coq Require Import List Arith ZArith Bool.
+From Verif Require Import lib.Wire c17.Model c17.Spec gen.Consts_c17.
+From Verif Require Import c17.Proofs_amap c17.Proofs_ext c17.Proofs_inv c17.Proofs_obs c17.Proofs.
+Import ListNotations.
+Local Open Scope Z_scope.
+
+(* THE property on traces: for every configuration (threshold, listen
+   addresses, connection universe, queried addresses) whose cap is the constant
+   read from /repo, and every finite history, the monitor of Spec.v — the one
+   that is run on the implementation's traces — accepts the model's trace. *)
+Theorem c17_monitor_accepts_model : forall cfg ops, cap cfg = the_cap ->
+  holds cfg (trace cfg init_state ops) = true.
+Proof. intros cfg ops H. apply holds_model. rewrite H, the_cap_three. apply le_n. Qed.
+Print Assumptions c17_monitor_accepts_model.
+
+(* refinement: externalAddrs[l][x].ObservedBy[g] is the number of entries of
+   connObservedTWAddrs vouching for x on l as observer g; no zero counts, no
+   empty observer sets, no empty per-local maps *)
+Theorem c17_ext_is_multiset_of_connobs : forall cfg ops,
+  let st := reach cfg ops in
+  wf_ext (ext st) /\
+  forall l x g, cnt (ext st) l x g = Z.of_nat (length (filter (credits cfg l x g) (cobs st))).
+Proof. exact ext_is_multiset_l. Qed.
+Print Assumptions c17_ext_is_multiset_of_connobs.
+
+(* a connection is credited with at most one observation *)
+Theorem c17_one_credit_per_conn : forall cfg ops,
+  let st := reach cfg ops in
+  NoDup (keys (cobs st)) /\
+  (forall c x, In (c, x) (cobs st) -> valid_conn cfg c /\ get Z.eqb c (cobs st) = Some x).
+Proof. exact one_credit_per_conn_l. Qed.
+Print Assumptions c17_one_credit_per_conn.
+
+(* loopback, NAT64, relayed, closed-connection, not-a-listen-address,
+   no-thin-waist and inconsistent-transport reports change nothing at all *)
+Theorem c17_filtered_never_counts : forall cfg st c oa,
+  o_lb oa = true \/ o_n64 oa = true \/ o_relay oa = true \/
+  zmem c (closed st) = true \/
+  (forall ci, conn_info cfg c = Some ci ->
+     match c_local ci with
+     | None => True
+     | Some l => is_listen_tw cfg (tw_id l) = false
+                 \/ match o_tw oa with
+                    | None => True
+                    | Some x => consistent l x = false
+                    end
+     end) ->
+  step cfg st (Observe c oa) = st.
+Proof. exact filtered_never_counts_l. Qed.
+Print Assumptions c17_filtered_never_counts.
+
+(* more generally: whatever the spec says does not count changes nothing *)
+Theorem c17_noncounting_report_is_ignored : forall cfg st c oa,
+  counts cfg (closed st) c oa = None -> step cfg st (Observe c oa) = st.
+Proof. exact counts_none_unchanged. Qed.
+Print Assumptions c17_noncounting_report_is_ignored.
+
+(* repeated reports from one observer group count once: len(ObservedBy) is the
+   number of DISTINCT groups among the vouching connections, and two remotes
+   have the same observer key iff they are the same IPv4 address / IPv6 /56 *)
+Theorem c17_repeated_group_counts_once : forall cfg ops l x,
+  let st := reach cfg ops in
+  length (oset (ext st) l x) = nobs cfg (cred_of cfg (cobs st)) l x.
+Proof. exact observed_by_is_distinct_groups_l. Qed.
+Print Assumptions c17_repeated_group_counts_once.
+
+Theorem c17_observer_key_is_group : forall r1 r2,
+  observer_of r1 = observer_of r2 <-> group_of r1 = group_of r2.
+Proof. exact observer_eq_iff_group_eq. Qed.
+Print Assumptions c17_observer_key_is_group.
+
+(* a counting report replaces the connection's previous one ... *)
+Theorem c17_report_replaces_previous : forall cfg st c oa l x,
+  counts cfg (closed st) c oa = Some (l, x) ->
+  get Z.eqb c (cobs (step cfg st (Observe c oa))) = Some x.
+Proof. exact observe_credits_l. Qed.
+Print Assumptions c17_report_replaces_previous.
+
+(* ... and a disconnect withdraws it: afterwards the connection is credited
+   with nothing, is closed, and externalAddrs is the multiset of the others *)
+Theorem c17_remove_withdraws : forall cfg ops c,
+  let st := reach cfg ops in
+  let st' := step cfg st (Disconnect c) in
+  get Z.eqb c (cobs st') = None /\
+  zmem c (closed st') = true /\
+  forall l x g, cnt (ext st') l x g =
+                Z.of_nat (length (filter (credits cfg l x g) (del Z.eqb c (cobs st)))).
+Proof. exact remove_withdraws_l. Qed.
+Print Assumptions c17_remove_withdraws.
+
+(* AddrsFor: only addresses with at least [thresh] distinct observer groups;
+   conversely (thresh >= 1) every such address is returned unless the answer
+   is full and every returned address has at least as many observers *)
+Theorem c17_addrs_threshold : forall cfg ops l r,
+  let st := reach cfg ops in
+  let n := nobs cfg (cred_of cfg (cobs st)) l in
+  let xs := addrs_for cfg st (Some l, r) in
+  (forall x, In x xs -> thresh cfg <= Z.of_nat (n x)) /\
+  (forall y, thresh cfg <= Z.of_nat (n y) -> 1 <= thresh cfg -> In y xs \/
+     (length xs = cap cfg /\ forall x, In x xs -> (n y <= n x)%nat)).
+Proof. exact addrs_threshold_l. Qed.
+Print Assumptions c17_addrs_threshold.
+
+(* at most three (the specification's number; the cap is the constant read
+   from /repo), no duplicates, most-observed first *)
+Theorem c17_at_most_three_sorted : forall cfg ops la, cap cfg = the_cap ->
+  let st := reach cfg ops in
+  let xs := addrs_for cfg st la in
+  (length xs <= 3)%nat /\ NoDup xs /\
+  match fst la with
+  | Some l => sorted_desc (map (nobs cfg (cred_of cfg (cobs st)) l) xs) = true
+  | None => xs = []
+  end.
+Proof. exact at_most_three_sorted_l. Qed.
+Print Assumptions c17_at_most_three_sorted.
+
+(* Addrs(0): every element is an observed thin waist above the threshold for
+   a listen address whose rest it carries *)
+Theorem c17_addrs_all_sound : forall cfg ops x r,
+  let st := reach cfg ops in
+  In (x, r) (addrs_all cfg st) ->
+  exists l, In (Some l, r) (listen cfg) /\
+            thresh cfg <= Z.of_nat (nobs cfg (cred_of cfg (cobs st)) l x).
+Proof. exact addrs_all_sound_l. Qed.
+Print Assumptions c17_addrs_all_sound.
+
+(* regenerated constants: both caps are the specification's three, and the
+   host-level truncation in addrs_manager.appendObservedAddrs drops nothing *)
 Theorem c17_cap_is_three :
-  maxExternalThinWaistAddrsPerLocalAddr = 3%Z /\ maxObservedAddrsPerListenAddr = 3%Z.
+  maxExternalThinWaistAddrsPerLocalAddr = 3 /\ maxObservedAddrsPerListenAddr = 3.
 Proof. exact cap_is_three_l. Qed.
 Print Assumptions c17_cap_is_three.
+
+Theorem c17_host_truncation_is_identity : forall cfg ops la, cap cfg = the_cap ->
+  host_observed_for (Z.to_nat maxObservedAddrsPerListenAddr) cfg (reach cfg ops) la =
+  addrs_for cfg (reach cfg ops) la.
+Proof. exact host_truncation_l. Qed.
+Print Assumptions c17_host_truncation_is_identity.
+
+(* ---- non-vacuity ------------------------------------------------------------ *)
+(* threshold 2, one TCP listen address (thin waist 0), three connections on it:
+   conn 0 and conn 2 from the same IPv4 address, conn 1 from another *)
+Definition ex_tw := mkTW 0 4 6.
+Definition ex_cfg : config :=
+  mkCfg 2 the_cap [(Some 0, 0)] [(Some 0, 0)]
+        [mkConn (Some ex_tw) (R4 16909057); mkConn (Some ex_tw) (R4 16909058); mkConn (Some ex_tw) (R4 16909057)].
+Definition ex_obs : obsaddr := mkObs false false false (Some (mkTW 5 4 6)).
+
+(* two reports from one observer group do not activate the address; a second group does *)
+Example ex_same_group_not_enough :
+  addrs_for ex_cfg (reach ex_cfg [Observe 0 ex_obs; Observe 2 ex_obs]) (Some 0, 0) = [].
+Proof. vm_compute. reflexivity. Qed.
+
+Example ex_two_groups_activate :
+  addrs_for ex_cfg (reach ex_cfg [Observe 0 ex_obs; Observe 2 ex_obs; Observe 1 ex_obs]) (Some 0, 0) = [5].
+Proof. vm_compute. reflexivity. Qed.
+
+Example ex_disconnect_deactivates :
+  addrs_for ex_cfg (reach ex_cfg [Observe 0 ex_obs; Observe 1 ex_obs; Disconnect 1]) (Some 0, 0) = [].
+Proof. vm_compute. reflexivity. Qed.
+
+(* the monitor rejects: an address reported on the strength of one group twice *)
+Example monitor_rejects_repeated_group :
+  holds ex_cfg [(Observe 0 ex_obs, mkO [[]] []); (Observe 2 ex_obs, mkO [[5]] [(5, 0)])] = false.
+Proof. vm_compute. reflexivity. Qed.
+
+(* ... an address kept after the connection that vouched for it was disconnected *)
+Example monitor_rejects_stale_after_disconnect :
+  holds ex_cfg [(Observe 0 ex_obs, mkO [[]] []); (Observe 1 ex_obs, mkO [[5]] [(5, 0)]);
+                (Disconnect 1, mkO [[5]] [(5, 0)])] = false.
+Proof. vm_compute. reflexivity. Qed.
+
+(* ... a loopback report counted *)
+Example monitor_rejects_loopback_counted :
+  holds ex_cfg [(Observe 0 ex_obs, mkO [[]] []);
+                (Observe 1 (mkObs true false false (Some (mkTW 5 4 6))), mkO [[5]] [(5, 0)])] = false.
+Proof. vm_compute. reflexivity. Qed.
+
+(* ... four addresses for one local address, and a wrongly ordered answer *)
+Example monitor_rejects_four :
+  holds (mkCfg 0 the_cap [(Some 0, 0)] [(Some 0, 0)] []) [(MarkClosed 0, mkO [[1; 2; 3; 4]] [])] = false.
+Proof. vm_compute. reflexivity. Qed.
+
+Example monitor_rejects_wrong_order :
+  holds (mkCfg 1 the_cap [(Some 0, 0)] [(Some 0, 0)]
+               [mkConn (Some ex_tw) (R4 1); mkConn (Some ex_tw) (R4 2); mkConn (Some ex_tw) (R4 3)])
+        [(Observe 0 ex_obs, mkO [[5]] [(5, 0)]);
+         (Observe 1 ex_obs, mkO [[5]] [(5, 0)]);
+         (Observe 2 (mkObs false false false (Some (mkTW 7 4 6))), mkO [[7; 5]] [(7, 0); (5, 0)])] = false.
+Proof. vm_compute. reflexivity. Qed.
+
+(* and accepts the right one *)
+Example monitor_accepts_right_order :
+  holds (mkCfg 1 the_cap [(Some 0, 0)] [(Some 0, 0)]
+               [mkConn (Some ex_tw) (R4 1); mkConn (Some ex_tw) (R4 2); mkConn (Some ex_tw) (R4 3)])
+        [(Observe 0 ex_obs, mkO [[5]] [(5, 0)]);
+         (Observe 1 ex_obs, mkO [[5]] [(5, 0)]);
+         (Observe 2 (mkObs false false false (Some (mkTW 7 4 6))), mkO [[5; 7]] [(5, 0); (7, 0)])] = true.
+Proof. vm_compute. reflexivity. Qed.
